@@ -161,11 +161,15 @@ Fixpoint zero_prefix (ft : features) (input : text) : nrun :=
       else {| nr_st := SInt; nr_tok := []; nr_rest := input |}
   end.
 
+(** put one more character in front of the first component (the recursive result is used once, so
+    evaluation is linear) *)
+Definition scons (c : cp) (x : text * text) : text * text := (c :: fst x, snd x).
+
 (** [reader.eat_while(p)] on the unread part: (eaten, unread) *)
 Fixpoint span (p : cp -> bool) (t : text) : text * text :=
   match t with
   | [] => ([], [])
-  | c :: r => if p c then (c :: fst (span p r), snd (span p r)) else ([], t)
+  | c :: r => if p c then scons c (span p r) else ([], t)
   end.
 
 (** a token: kind, text ([reader.current_text()]), unread part, "an error was pushed" *)
@@ -216,7 +220,6 @@ Definition starts_number (input : text) : bool :=
 Definition lexer_zsp (c : cp) : bool := (c =? 32) || (c =? 9) || (c =? 13) || (c =? 10).
 Definition lexer_zsp_fixed (c : cp) : bool := lexer_zsp c || (c =? 11) || (c =? 12).
 
-Definition scons (c : cp) (x : text * text) : text * text := (c :: fst x, snd x).
 
 (** the [while !self.reader.is_eof() { .. }] loop of [lex_string]: (characters bumped, unread part).
     [zsp] is the closure given to [eat_while] after [\z].  The nested [eat_while] is expressed by the
@@ -253,8 +256,9 @@ Fixpoint str_loop (zsp : cp -> bool) (q : cp) (skip : bool) (input : text) : tex
 (** [fn lex_string(quote)], started after the opening quote: the token text is what was bumped
     (without the opening quote); error = "unfinished string" *)
 Definition lex_string (zsp : cp -> bool) (q : cp) (input : text) : token :=
-  let body := fst (str_loop zsp q false input) in
-  let r := snd (str_loop zsp q false input) in
+  let sl := str_loop zsp q false input in
+  let body := fst sl in
+  let r := snd sl in
   match r with
   | c :: r' => if c =? q
                then {| tk_kind := TkString; tk_text := body ++ [q]; tk_rest := r'; tk_err := false |}
@@ -469,7 +473,7 @@ Definition chk_simple (c : cp) : bool :=
 Fixpoint span_ne (stop : cp) (t : text) : text * text :=
   match t with
   | [] => ([], [])
-  | c :: r => if c =? stop then ([], r) else (c :: fst (span_ne stop r), snd (span_ne stop r))
+  | c :: r => if c =? stop then ([], r) else scons c (span_ne stop r)
   end.
 
 (** [for _ in 0..n { if let Some(d) = chars.peek() { if !d.is_ascii_digit() { break; } chars.next(); } }] *)
